@@ -9,6 +9,25 @@ NOTE = old_checks["C12"]["level_note"]
 TECH = "Lean 4 theorem about an executable model + regenerated facts + differential correspondence"
 
 LEVEL = {
+ "C12": "refinement theorems in Lean 4: MemoryReader (u64 guards) and SliceReader<W> over any in-bounds-correct W equal the abstract N-arithmetic "
+        "reader on every operation, every 64-bit argument and every finite history, nested to any depth; typed-helper size theorems; the guards, "
+        "cursor updates and memcpy extents of MemoryReader and SliceReader<FileReader> are re-translated from the clang AST on every run and "
+        "proved equal to the model's on all 64-bit values (C12_gen_*); exhaustive short histories + random long ones on the real classes under "
+        "ASan/UBSan compared with the compiled model and with an independent Python oracle",
+ "C13": "slice-creation guard exactness (incl. wrap-around), window theorem to any nesting depth, slice-here and backend-equivalence theorems in "
+        "Lean 4; SliceReader's constructor, Initialize and both Slice overloads re-translated from the clang AST on every run and proved equal to "
+        "the model (C13_gen_*); real-class runs: creation lattice, interleaved multi-object histories with an independence oracle, "
+        "same-history-on-every-backend runs, member streams of archives whose index size and block length differ",
+ "C14": "fixed-writer refinement (all histories), frame and refusal theorems, growing-writer = history fold, prefix refusal, codec inverses, "
+        "copy-loop theorem for every chunk size, open-flag table by decide, Append keeps prior content as a prefix under every history of seeks "
+        "and writes (C14_append_history); MemoryWriter / DynamicMemoryWriter guards re-translated from the clang AST on every run and proved equal "
+        "to the model (C14_gen_*); guard-zoned buffers, exhaustive short histories, copy matrix, on-disk open-flag matrix and file-writer "
+        "histories against the model and a Python oracle",
+ "C19": "strict-weak-order, sort-uniqueness, duplicate-detection, path-equivalence (reflexive, symmetric, transitive, case and leading ./ "
+        "insensitive), split/re-join, extension and file-name-of-join laws (the unrestricted join laws are refuted in Lean and the library "
+        "agrees) and bit-helper theorems in Lean 4 over a model of StringUtility/XFile/BitTwiddle; IsPowerOf2/Log2OfPowerOf2 regenerated from "
+        "the clang AST and proved equal to the model; exhaustive small-scope differential run of the compiled model against the real library "
+        "plus direct oracles, incl. ArchiveFile::ComparePathFilenames against the stem comparison",
  "C18": "Lean 4 theorems: the masks of unassigned bytes of every record the library builds and serialises (14 records / default objects), "
         "re-measured from the current sources on every run by constructing each in place over 0x00 / 0xFF / 0xA5-filled storage, are empty, "
         "hence the serialised image is independent of the garbage oracle (with the converse: a non-empty mask makes it depend on it); VOL and "
@@ -79,7 +98,8 @@ LEVEL = {
         "from the regenerated constant), offsets 12-bit; GetOffsetModifiers regenerated from the clang AST and proved equal to the model; "
         "real HuffLZ under ASan/UBSan on encoder output covering every match length / position code / window wrap / capacity crossing, "
         "random bytes, truncations, many drain schedules, LZH extraction through VolFile, against the compiled model and a harness-side "
-        "reference decoder; three independent encoders compared",
+        "reference decoder; encoder round trip decode(encode ts) = expand ts proved for the Lean encoder on token lists within capacity "
+        "(C04_encoder_prefix), three independent encoders compared",
  "C15": "invariant WF proved for the constructor's tree (every T >= 2) and preserved by every accepted update, hence on every history; "
         "root count = T + updates so exactly 65535 - T updates are accepted and no 16-bit counter wraps; refusals return the old tree; "
         "WF => full binary prefix code, encoder bits drive the decoder walk to the symbol's leaf; LZHUF-style reference update proved "
